@@ -159,6 +159,17 @@ func lxGenGrammar(rng *rand.Rand, idx int) *lxGrammar {
 		}
 	}
 	if rng.Intn(3) == 0 && !g.nonBacktracking {
+		// two tokens that are both proper prefixes of a longer one and meet in the same non-accepting state
+		add(lxRule{name: "tilde", pattern: `~`, scs: g.scNames})
+		add(lxRule{name: "caret", pattern: `\^`, scs: g.scNames})
+		add(lxRule{name: "arrow", pattern: `[~\^]=>`, scs: g.scNames})
+	}
+	if rng.Intn(3) == 0 && !g.nonBacktracking {
+		// a skipped token that runs through an accepting state: the checkpoint taken inside it must not survive it
+		add(lxRule{name: "div", pattern: `\/`, scs: g.scNames})
+		add(lxRule{name: "blockcomment", pattern: `\/\*([^*]|\*+[^*\/])*\*+\/`, attr: "(space)", scs: g.scNames})
+	}
+	if rng.Intn(3) == 0 && !g.nonBacktracking {
 		add(lxRule{name: "str", pattern: `"[^"\n]*"`})
 	}
 	if rng.Intn(3) == 0 {
@@ -185,7 +196,8 @@ func lxGenGrammar(rng *rand.Rand, idx int) *lxGrammar {
 
 func lxText(rng *rand.Rand, g *lxGrammar) []byte {
 	words := []string{"if", "in", "int", "a", "ab0", "x", "é", "жa", "aж", "abc", "12", "1.5", "1.", "1.5e", "1.5e3", "+", "++", "+=", "+==", "\"s\"", "\"s", "//c", " ", "\n", "\t", "\n\n",
-		"É", "IF", "😀", "Ж", "_", "x\n", "xx", "-", ".", "y0"}
+		"É", "IF", "😀", "Ж", "_", "x\n", "xx", "-", ".", "y0",
+		"~", "^", "~=", "^=", "~=>", "^=>", "^=1", "/", "/*c*/", "/* c\n*/", "/*", "/**/", "/* a */ ", "#"}
 	var b []byte
 	n := rng.Intn(9)
 	for i := 0; i < n; i++ {
@@ -345,61 +357,61 @@ func lxConfigRules(p *genPkg, g *lxGrammar, lexer string) string {
 
 type shippedLexer struct {
 	name string
-	run  func(src string, emit func(tok, s, e, line int) bool)
+	run  func(src string, emit func(tok, s, e, line, col int) bool)
 }
 
 var shipped = []shippedLexer{
-	{"json", func(src string, emit func(int, int, int, int) bool) {
+	{"json", func(src string, emit func(int, int, int, int, int) bool) {
 		var l jsonlex.Lexer
 		l.Init(src)
 		for {
 			t := l.Next()
 			s, e := l.Pos()
-			if !emit(int(t), s, e, l.Line()) {
+			if !emit(int(t), s, e, l.Line(), 0) {
 				return
 			}
 		}
 	}},
-	{"simple", func(src string, emit func(int, int, int, int) bool) {
+	{"simple", func(src string, emit func(int, int, int, int, int) bool) {
 		var l simplelex.Lexer
 		l.Init(src)
 		for {
 			t := l.Next()
 			s, e := l.Pos()
-			if !emit(int(t), s, e, l.Line()) {
+			if !emit(int(t), s, e, l.Line(), 0) {
 				return
 			}
 		}
 	}},
-	{"test", func(src string, emit func(int, int, int, int) bool) {
+	{"test", func(src string, emit func(int, int, int, int, int) bool) {
 		var l testlex.Lexer
 		l.Init(src)
 		for {
 			t := l.Next()
 			s, e := l.Pos()
-			if !emit(int(t), s, e, 0) {
+			if !emit(int(t), s, e, 0, 0) {
 				return
 			}
 		}
 	}},
-	{"tm", func(src string, emit func(int, int, int, int) bool) {
+	{"tm", func(src string, emit func(int, int, int, int, int) bool) {
 		var l tmlex.Lexer
 		l.Init(src)
 		for {
 			t := l.Next()
 			s, e := l.Pos()
-			if !emit(int(t), s, e, l.Line()) {
+			if !emit(int(t), s, e, l.Line(), l.Column()) {
 				return
 			}
 		}
 	}},
-	{"js", func(src string, emit func(int, int, int, int) bool) {
+	{"js", func(src string, emit func(int, int, int, int, int) bool) {
 		var l jslex.Lexer
 		l.Init(src)
 		for {
 			t := l.Next()
 			s, e := l.Pos()
-			if !emit(int(t), s, e, l.Line()) {
+			if !emit(int(t), s, e, l.Line(), 0) {
 				return
 			}
 		}
@@ -410,7 +422,7 @@ var shippedWords = map[string][]string{
 	"json":   {"{", "}", "[", "]", ",", ":", "\"a\"", "\"\\u00e9\"", "\"x", "12", "-1.5e3", "1e", "true", "null", "fals", " ", "\n", "\t", "//c\n", "/*c*/", "/*", "\\", "é"},
 	"simple": {"a", "b", "simple", " ", "\n", "x", "é", "0"},
 	"test":   {"test", "decl1", "eval", "as", "if", "else", "{", "}", "(", ")", "...", ".", "->", "-", "abc", "a-b", "12", "12\n", "//c\n", "//c", " ", "\n", "\x00", "Z", "%q", "% q\n%q", "'a'", "\\", "é", "_", "<", "/*c*/", "/*", "#"},
-	"tm":     {"language", "a", "::", "lexer", "parser", ":", ";", "/a+/", "/[", "'x'", "'", "\"s\"", "\"s", "{", "}", "{ $$ = 1 }", "{{", "%%", "%input", "#c\n", "# c", "//c\n", "/*c*/", "/*", " ", "\n", "\r\n", "(", ")", "->", "=", "12", "$", "é", "<", ">", "*", "{~a}", "'\\''", "\\", "\"{\"", "'{'", "{ '}' }", "{ \"}\" }", "{ // }\n}", "{ /* } */ }"},
+	"tm":     {"language", "a", "::", "lexer", "parser", ":", ";", "/a+/", "/[", "'x'", "'", "\"s\"", "\"s", "{", "}", "{ $$ = 1 }", "{{", "%%", "%input", "#c\n", "# c", "//c\n", "/*c*/", "/*", " ", "\n", "\r\n", "(", ")", "->", "=", "12", "$", "é", "<", ">", "*", "{~a}", "'\\''", "\\", "\"{\"", "'{'", "{ '}' }", "{ \"}\" }", "{ // }\n}", "{ /* } */ }", "{ a\nb }", "{\n}", "{ \"\\\n\" }", "{ '\\\n' }\n", "{ /* \n */ }", "{ // \n\n }"},
 	"js":     {"var", "a", "=", "1", ";", "/re/g", "/", "/*c*/", "/*", "//c\n", "\"s\"", "'s", "`t${a}`", "`t", "${", "}", "{", "(", ")", "<div>", "</", ">", "=>", "0x1f", "1n", "1.e3", ".5", "\\u0041", "#p", "@", "é", "\u2028", " ", "\n", "\r\n", "<!--", "-->", "?.", "**=", ">>>=", "#!/bin\n"},
 }
 
@@ -475,11 +487,11 @@ func c12Shipped(rng *rand.Rand, n int, _ []string) {
 			var sb strings.Builder
 			sb.WriteString("(")
 			count, eois := 0, 0
-			sl.run(src, func(tok, s, e, line int) bool {
+			sl.run(src, func(tok, s, e, line, col int) bool {
 				if count > 0 {
 					sb.WriteString(" ")
 				}
-				fmt.Fprintf(&sb, "(%d %d %d %d 0)", tok, s, e, line)
+				fmt.Fprintf(&sb, "(%d %d %d %d %d)", tok, s, e, line, col)
 				count++
 				if tok == 0 {
 					eois++
@@ -507,6 +519,8 @@ func c12Shipped(rng *rand.Rand, n int, _ []string) {
 		hasLine := 1
 		if sl.name == "test" {
 			hasLine = 0
+		} else if sl.name == "tm" {
+			hasLine = 2 // line and column
 		}
 		sx.Case("c12.shipped", sx.List(sx.Str(sl.name), sx.Int(hasLine), sx.Bytes(b)), out)
 	}
